@@ -28,6 +28,15 @@ coq/KeyLimit.vos coq/KeyLimit.vok coq/KeyLimit.required_vos: coq/KeyLimit.v coq/
 coq/KeyLimitProofs.vo coq/KeyLimitProofs.glob coq/KeyLimitProofs.v.beautified coq/KeyLimitProofs.required_vo: coq/KeyLimitProofs.v coq/Util.vo coq/Constants.vo coq/KeyLimit.vo
 coq/KeyLimitProofs.vio: coq/KeyLimitProofs.v coq/Util.vio coq/Constants.vio coq/KeyLimit.vio
 coq/KeyLimitProofs.vos coq/KeyLimitProofs.vok coq/KeyLimitProofs.required_vos: coq/KeyLimitProofs.v coq/Util.vos coq/Constants.vos coq/KeyLimit.vos
+coq/Properties_C01.vo coq/Properties_C01.glob coq/Properties_C01.v.beautified coq/Properties_C01.required_vo: coq/Properties_C01.v coq/Constants.vo
+coq/Properties_C01.vio: coq/Properties_C01.v coq/Constants.vio
+coq/Properties_C01.vos coq/Properties_C01.vok coq/Properties_C01.required_vos: coq/Properties_C01.v coq/Constants.vos
+coq/Properties_C02.vo coq/Properties_C02.glob coq/Properties_C02.v.beautified coq/Properties_C02.required_vo: coq/Properties_C02.v coq/Constants.vo
+coq/Properties_C02.vio: coq/Properties_C02.v coq/Constants.vio
+coq/Properties_C02.vos coq/Properties_C02.vok coq/Properties_C02.required_vos: coq/Properties_C02.v coq/Constants.vos
+coq/Properties_C04.vo coq/Properties_C04.glob coq/Properties_C04.v.beautified coq/Properties_C04.required_vo: coq/Properties_C04.v coq/Constants.vo
+coq/Properties_C04.vio: coq/Properties_C04.v coq/Constants.vio
+coq/Properties_C04.vos coq/Properties_C04.vok coq/Properties_C04.required_vos: coq/Properties_C04.v coq/Constants.vos
 coq/Properties_C05.vo coq/Properties_C05.glob coq/Properties_C05.v.beautified coq/Properties_C05.required_vo: coq/Properties_C05.v coq/Util.vo coq/Constants.vo coq/Rdbx.vo coq/Seen.vo coq/IndexProofs.vo coq/RdbxProofs.vo
 coq/Properties_C05.vio: coq/Properties_C05.v coq/Util.vio coq/Constants.vio coq/Rdbx.vio coq/Seen.vio coq/IndexProofs.vio coq/RdbxProofs.vio
 coq/Properties_C05.vos coq/Properties_C05.vok coq/Properties_C05.required_vos: coq/Properties_C05.v coq/Util.vos coq/Constants.vos coq/Rdbx.vos coq/Seen.vos coq/IndexProofs.vos coq/RdbxProofs.vos
@@ -37,6 +46,9 @@ coq/Properties_C06.vos coq/Properties_C06.vok coq/Properties_C06.required_vos: c
 coq/Properties_C07.vo coq/Properties_C07.glob coq/Properties_C07.v.beautified coq/Properties_C07.required_vo: coq/Properties_C07.v coq/Util.vo coq/Constants.vo coq/Rdb.vo coq/Seen.vo coq/RdbProofs.vo
 coq/Properties_C07.vio: coq/Properties_C07.v coq/Util.vio coq/Constants.vio coq/Rdb.vio coq/Seen.vio coq/RdbProofs.vio
 coq/Properties_C07.vos coq/Properties_C07.vok coq/Properties_C07.required_vos: coq/Properties_C07.v coq/Util.vos coq/Constants.vos coq/Rdb.vos coq/Seen.vos coq/RdbProofs.vos
+coq/Properties_C08.vo coq/Properties_C08.glob coq/Properties_C08.v.beautified coq/Properties_C08.required_vo: coq/Properties_C08.v coq/Constants.vo
+coq/Properties_C08.vio: coq/Properties_C08.v coq/Constants.vio
+coq/Properties_C08.vos coq/Properties_C08.vok coq/Properties_C08.required_vos: coq/Properties_C08.v coq/Constants.vos
 coq/Properties_C09.vo coq/Properties_C09.glob coq/Properties_C09.v.beautified coq/Properties_C09.required_vo: coq/Properties_C09.v coq/Util.vo coq/Constants.vo coq/KeyLimit.vo coq/KeyLimitProofs.vo
 coq/Properties_C09.vio: coq/Properties_C09.v coq/Util.vio coq/Constants.vio coq/KeyLimit.vio coq/KeyLimitProofs.vio
 coq/Properties_C09.vos coq/Properties_C09.vok coq/Properties_C09.required_vos: coq/Properties_C09.v coq/Util.vos coq/Constants.vos coq/KeyLimit.vos coq/KeyLimitProofs.vos
@@ -49,6 +61,12 @@ coq/Properties_C11.vos coq/Properties_C11.vok coq/Properties_C11.required_vos: c
 coq/Properties_C12.vo coq/Properties_C12.glob coq/Properties_C12.v.beautified coq/Properties_C12.required_vo: coq/Properties_C12.v coq/Constants.vo
 coq/Properties_C12.vio: coq/Properties_C12.v coq/Constants.vio
 coq/Properties_C12.vos coq/Properties_C12.vok coq/Properties_C12.required_vos: coq/Properties_C12.v coq/Constants.vos
+coq/Properties_C13.vo coq/Properties_C13.glob coq/Properties_C13.v.beautified coq/Properties_C13.required_vo: coq/Properties_C13.v coq/Constants.vo
+coq/Properties_C13.vio: coq/Properties_C13.v coq/Constants.vio
+coq/Properties_C13.vos coq/Properties_C13.vok coq/Properties_C13.required_vos: coq/Properties_C13.v coq/Constants.vos
+coq/Properties_C14.vo coq/Properties_C14.glob coq/Properties_C14.v.beautified coq/Properties_C14.required_vo: coq/Properties_C14.v coq/Constants.vo
+coq/Properties_C14.vio: coq/Properties_C14.v coq/Constants.vio
+coq/Properties_C14.vos coq/Properties_C14.vok coq/Properties_C14.required_vos: coq/Properties_C14.v coq/Constants.vos
 coq/Properties_C15.vo coq/Properties_C15.glob coq/Properties_C15.v.beautified coq/Properties_C15.required_vo: coq/Properties_C15.v coq/Constants.vo
 coq/Properties_C15.vio: coq/Properties_C15.v coq/Constants.vio
 coq/Properties_C15.vos coq/Properties_C15.vok coq/Properties_C15.required_vos: coq/Properties_C15.v coq/Constants.vos
